@@ -92,10 +92,9 @@ func c15Pick(thorough bool, q, t int) int {
 }
 
 // in-uni: incoming unidirectional streams, real completion path.
-func c15InUni(p protocol.Perspective) func(bool) *c15Cfg {
+func c15InUni(p protocol.Perspective, lim, dq, dt int) func(bool) *c15Cfg {
 	return func(th bool) *c15Cfg {
-		lim := c15Pick(th, 2, 3)
-		cfg := &c15Cfg{pers: p, lim: [2]int{2, lim}, app: true, acceptNone: true, depth: c15Pick(th, 8, 9)}
+		cfg := &c15Cfg{pers: p, lim: [2]int{2, lim}, app: true, acceptNone: true, depth: c15Pick(th, dq, dt)}
 		cfg.frameMax[1] = lim + 2
 		cfg.frameKinds[1] = []int{c15KStream, c15KFin, c15KReset, c15KStop, c15KBlocked}
 		cfg.accept[1] = true
@@ -104,10 +103,9 @@ func c15InUni(p protocol.Perspective) func(bool) *c15Cfg {
 }
 
 // in-bidi: incoming bidirectional streams, real completion path (both halves).
-func c15InBidi(p protocol.Perspective) func(bool) *c15Cfg {
+func c15InBidi(p protocol.Perspective, lim, dq, dt int) func(bool) *c15Cfg {
 	return func(th bool) *c15Cfg {
-		lim := c15Pick(th, 2, 3)
-		cfg := &c15Cfg{pers: p, lim: [2]int{lim, 2}, app: true, depth: c15Pick(th, 7, 8)}
+		cfg := &c15Cfg{pers: p, lim: [2]int{lim, 2}, app: true, depth: c15Pick(th, dq, dt)}
 		cfg.frameMax[0] = lim + 2
 		cfg.frameKinds[0] = []int{c15KFin, c15KReset, c15KStop, c15KMaxData}
 		cfg.accept[0] = true
@@ -135,14 +133,16 @@ func c15Out(p protocol.Perspective) func(bool) *c15Cfg {
 // directly (what connection.onStreamCompleted does), which is also possible before the
 // application accepted the stream. Frames that only open streams keep the per-stream
 // state trivial, so the reachable state set closes.
-func c15Direct(p protocol.Perspective, limB, limU int) func(bool) *c15Cfg {
+func c15Direct(p protocol.Perspective, t, lim int) func(bool) *c15Cfg {
 	return func(th bool) *c15Cfg {
-		cfg := &c15Cfg{pers: p, lim: [2]int{limB, limU}, direct: true, acceptNone: true}
-		extra := c15Pick(th, 3, 5)
-		cfg.frameMax[0], cfg.frameMax[1] = limB+extra, limU+extra
-		cfg.frameKinds[0] = []int{c15KBlocked, c15KMaxData}
-		cfg.frameKinds[1] = []int{c15KBlocked}
-		cfg.accept = [2]bool{true, true}
+		cfg := &c15Cfg{pers: p, lim: [2]int{2, 2}, direct: true, acceptNone: true}
+		cfg.lim[t] = lim
+		cfg.frameMax[t] = lim + c15Pick(th, 4, 10)
+		cfg.frameKinds[t] = []int{c15KBlocked}
+		if t == 0 {
+			cfg.frameKinds[t] = []int{c15KBlocked, c15KMaxData}
+		}
+		cfg.accept[t] = true
 		return cfg
 	}
 }
@@ -166,12 +166,14 @@ func c15Mixed(p protocol.Perspective) func(bool) *c15Cfg {
 func TestVerifC15(t *testing.T) {
 	srv, cli := protocol.PerspectiveServer, protocol.PerspectiveClient
 	explore.Main("C15", []explore.Part{
-		c15Part("direct-srv", c15Direct(srv, 2, 3)),
-		c15Part("direct-cli", c15Direct(cli, 3, 2)),
-		c15Part("in-uni-srv", c15InUni(srv)),
-		c15Part("in-uni-cli", c15InUni(cli)),
-		c15Part("in-bidi-srv", c15InBidi(srv)),
-		c15Part("in-bidi-cli", c15InBidi(cli)),
+		c15Part("direct-bidi-srv-l2", c15Direct(srv, 0, 2)),
+		c15Part("direct-bidi-cli-l3", c15Direct(cli, 0, 3)),
+		c15Part("direct-uni-srv-l3", c15Direct(srv, 1, 3)),
+		c15Part("direct-uni-cli-l2", c15Direct(cli, 1, 2)),
+		c15Part("in-uni-srv-l2", c15InUni(srv, 2, 9, 11)),
+		c15Part("in-uni-cli-l3", c15InUni(cli, 3, 8, 10)),
+		c15Part("in-bidi-srv-l3", c15InBidi(srv, 3, 6, 8)),
+		c15Part("in-bidi-cli-l2", c15InBidi(cli, 2, 7, 9)),
 		c15Part("out-srv", c15Out(srv)),
 		c15Part("out-cli", c15Out(cli)),
 		c15Part("mixed-srv", c15Mixed(srv)),
